@@ -104,6 +104,123 @@ def crafted_output_triples():
     out.append((nb(b3), nb(l3), nb(r3)))
     return out
 
+CONFIG_KINDS = ('by_field', 'casefold', 'head', 'mixed', 'by_field')
+CONFIG_SHAPES = ('top', 'key', 'deep', 'two', 'top')
+
+def config_pairs(r, n):
+    """the generic differ called through its PUBLIC `config` argument with ONE predicate per list path that is a similarity and
+    not strict equality (implrun.make_config: records matched by an id field, strings matched up to case, lists matched by
+    their first item, or all three): the single-level branch of diff_lists, which recurses into the matched items.  b is
+    derived from a by a script of insertions, removals and IN-PLACE edits (an edited item still matches its original), so
+    that matched-but-edited items come before, between and after shifts of the list; varied over the predicate kind, the
+    name of the id field, the place of the list (root, under a key, two levels down, next to a list that keeps the default
+    predicate), records that carry a list of records themselves, the registration (every path / only the named paths) and
+    the container type of the predicate collection.  Returns [(a, b, config spec)]."""
+    out = []
+    for i in range(n):
+        kind = CONFIG_KINDS[i % len(CONFIG_KINDS)]; shape = CONFIG_SHAPES[(i // len(CONFIG_KINDS)) % len(CONFIG_SHAPES)]
+        field = r.choice(['id', 'id', 'name', 'k'])
+        ctr = [0]
+        def ident():
+            ctr[0] += 1
+            return ctr[0] if field != 'name' else 'r%d' % ctr[0]
+        def payload():
+            c = r.random()
+            if c < 0.3: return genjson.gen_line(r) or 'w'
+            if c < 0.45: return genjson.gen_text(r, nlines=r.choice([2, 3, 4]), seps=['\n'])
+            if c < 0.6: return r.randint(0, 9)
+            if c < 0.8: return [r.choice(['p', 'q', 's', 1, 2]) for _ in range(r.randint(0, 3))]
+            return {'u': r.randint(0, 3), 'v': genjson.gen_line(r)}
+        def edit_payload(v):
+            if isinstance(v, str):
+                w = genjson.edit_text(r, v)
+                return w if w != v else v + '!'
+            if isinstance(v, int): return v + 1
+            if isinstance(v, list): return v + ['t'] if r.random() < 0.5 or not v else v[1:]
+            w = dict(v); w['u'] = w['u'] + 1
+            if r.random() < 0.4: w['w'] = 'new'
+            return w
+        def fresh(k, depth):
+            if k == 'mixed': k = r.choice(['by_field', 'casefold', 'head'])
+            if k == 'by_field':
+                rec = {field: ident(), 'value': payload()}
+                if r.random() < 0.3: rec['note'] = genjson.gen_line(r)
+                if depth > 0 and r.random() < 0.3: rec['children'] = [fresh('by_field', depth - 1) for _ in range(r.randint(1, 4))]
+                return rec
+            if k == 'casefold':
+                ctr[0] += 1
+                return 'Item %d %s\n' % (ctr[0], genjson.gen_line(r)) + ('second Line of %d\n' % ctr[0] if r.random() < 0.3 else '')
+            ctr[0] += 1
+            return ['tag%d' % ctr[0]] + [payload() for _ in range(r.randint(0, 3))]
+        def edit(x, depth):
+            """an edited item that the predicate still matches with x"""
+            if isinstance(x, dict):
+                y = copy.deepcopy(x); c = r.random()
+                if 'children' in y and c < 0.6: y['children'] = edit_list(y['children'], 'by_field', depth - 1)
+                if c > 0.3 or pyspec.strict_eq(x, y): y['value'] = edit_payload(y['value'])
+                if c > 0.85: y['extra'] = True
+                return y
+            if isinstance(x, str):
+                ws = x.split(' ')
+                j = r.choice([n for n, w in enumerate(ws) if w.swapcase() != w]); ws[j] = ws[j].swapcase()
+                if r.random() < 0.3: ws[0] = ws[0].swapcase()
+                return ' '.join(ws)
+            y = copy.deepcopy(x)
+            if len(y) > 1 and r.random() < 0.6: y[r.randrange(1, len(y))] = 'changed'
+            else: y.insert(r.randint(1, len(y)), payload())
+            return y
+        def edit_list(items, k, depth):
+            res = []
+            p_ins, p_del, p_edit = r.choice([(0.25, 0.2, 0.4), (0.4, 0.05, 0.5), (0.05, 0.4, 0.5), (0.15, 0.15, 0.2)])
+            for x in items:
+                while r.random() < p_ins: res.append(fresh(k, depth))
+                c = r.random()
+                if c < p_del: continue
+                res.append(edit(x, depth) if c < p_del + p_edit else copy.deepcopy(x))
+            while r.random() < p_ins: res.append(fresh(k, depth))
+            if len(res) > 1 and r.random() < 0.1: res.insert(r.randrange(len(res)), res.pop(r.randrange(len(res))))
+            if items and r.random() < 0.08: res.insert(r.randint(0, len(res)), copy.deepcopy(r.choice(items)))   # a second item that matches
+            return res
+        depth = r.choice([0, 1, 1, 2])
+        la = [fresh(kind, depth) for _ in range(r.choice([1, 2, 3, 4, 5, 6, 8]))]
+        lb = edit_list(la, kind, depth)
+        if shape == 'top': a, b, root = la, lb, ''
+        elif shape == 'key':
+            a = {'rows': la, 'title': 'T', 'n': 1}; b = {'rows': lb, 'title': r.choice(['T', 'T2']), 'n': r.choice([1, 2])}; root = '/rows'
+        elif shape == 'deep':
+            a = {'doc': {'rows': la, 'm': {}}, 'z': []}; b = {'doc': {'rows': lb, 'm': r.choice([{}, {'q': 1}])}, 'z': []}; root = '/doc/rows'
+        else:
+            other = [fresh('by_field', 0) for _ in range(r.randint(0, 3))]
+            a = {'left': la, 'right': other}; b = {'left': lb, 'right': edit_list(other, 'by_field', 0)}; root = '/left'
+        if shape != 'two' and r.random() < 0.4: paths = None
+        else:
+            paths = [root or '/']
+            if r.random() < 0.7: paths.append(root + '/*/children')
+        out.append((a, b, {'kind': kind, 'field': field, 'paths': paths, 'seq': r.choice(['list', 'list', 'tuple'])}))
+    return out
+
+def shifted_item_patch(base, d):
+    """does the diff patch an item of some LIST of the base (at any depth) after an addrange / removerange of that list?"""
+    shift = False
+    for e in d:
+        if e.get('op') in ('addrange', 'removerange'): shift = True
+        elif e.get('op') == 'patch':
+            try: sub = base[e['key']]
+            except Exception: return True
+            if isinstance(base, list) and shift: return True
+            if isinstance(sub, (list, dict)) and shifted_item_patch(sub, e.get('diff') or []): return True
+    return False
+
+def judge_config(val, t, res):
+    """well-formedness relative to the base, schema and JSON round trip as for every other diff; and the diff must describe
+    the change it was computed for: a nested patch filed under another item's position can be well-formed for that item"""
+    sig, detail = judge_diff(val, t['a'], res['ok'])
+    if sig: return sig + ':generic-config', detail
+    p = res.get('patched') or {}
+    if 'err' in p: return 'config-diff-does-not-apply', {'diff': res['ok'], 'error': p.get('err'), 'msg': p.get('msg')}
+    if not pyspec.strict_eq(p.get('ok'), t['b']): return 'config-diff-patches-to-other-document', {'diff': res['ok'], 'patched': p.get('ok')}
+    return None, None
+
 def run(tier, seed):
     chk = core.Check(PROP, tier, seed)
     b = core.build()
@@ -134,10 +251,26 @@ def run(tier, seed):
                 for (x, y, z) in crafted_output_triples() + triples[:(20 if tier == 'quick' else 200)] for os_ in ('remove', 'clear-all', 'inline-outputs', 'use-local')]
              + [{'op': 'merge_decisions', 'base': x, 'local': y, 'remote': z, 'strategy': s}
                 for (x, y, z) in union_line_triples() for s in ('union', 'mergetool')])
+    # (appended last: the random streams of the families above stay as they were)
+    cpairs = config_pairs(r, 400 if tier == 'quick' else 8000)
+    tasks += [{'op': 'diff_config', 'a': a, 'b': bb, 'config': cfg} for a, bb, cfg in cpairs]
     results = core.run_impl(tasks, shards=14)
     nontrivial = set(); counts = {'generic': 0, 'notebook': 0, 'decision': 0}; merge_errors = 0
     checker_lines = []; checker_meta = []
+    cfg_cov = {'errors': 0, 'with_item_patch_after_a_shift': 0}
     for t, res in zip(tasks, results):
+        if t['op'] == 'diff_config':
+            if 'err' in res:
+                # the differ itself fails on a list of matched-but-edited items (its sanity assertions included)
+                cfg_cov['errors'] += 1
+                chk.violation('config-diff-raises', {'a': t['a'], 'b': t['b'], 'config': t['config']}, {'error': res.get('err'), 'msg': res.get('msg')})
+                continue
+            counts['generic_config'] = counts.get('generic_config', 0) + 1
+            if res['ok']: nontrivial.add(pyspec.canon([t['a'], res['ok']]))
+            if shifted_item_patch(t['a'], res['ok']): cfg_cov['with_item_patch_after_a_shift'] += 1
+            sig, detail = judge_config(val, t, res)
+            if sig: chk.violation(sig, {'a': t['a'], 'b': t['b'], 'config': t['config']}, detail)
+            continue
         if t['op'] in ('diff', 'nbdiff_patch'):
             if 'err' in res: continue          # failures to diff are C01/C02's subject
             base, d = t['a'], res['ok']
@@ -189,15 +322,20 @@ def run(tier, seed):
     elif not getattr(b, 'model_ok', False):
         chk.broken_obligation('model-build', b.log[-800:])
     chk.cov.update({'evaluations': sum(counts.values()), 'distinct_nontrivial': len(nontrivial),
-                    'rule': 'every diff returned by nbdime.diff on generated JSON pairs, by diff_notebooks on generated notebook pairs, and every local/remote/custom diff inside the decisions of decide_notebook_merge (mergetool and inline strategies) on generated triples, judged relative to its base (sub-)document; non-trivial = non-empty diff, distinct by canonical JSON of (base, diff)',
-                    'input_distribution': counts, 'merge_errors_skipped': merge_errors,
+                    'rule': 'every diff returned by nbdime.diff on generated JSON pairs, by diff_notebooks on generated notebook pairs, and every local/remote/custom diff inside the decisions of decide_notebook_merge (mergetool and inline strategies) on generated triples, judged relative to its base (sub-)document; non-trivial = non-empty diff, distinct by canonical JSON of (base, diff)'
+                            '; plus (generic_config) every diff returned by nbdime.diff(a, b, config=DiffConfig(predicates=...)) with ONE similarity predicate per list path (records matched by an id field / strings up to case / lists by their first item / all three; registered for every path or for named paths only) on generated lists of such items under scripts of insertions, removals and in-place edits -- the single-predicate branch of diff_lists recursing into matched items at shifted positions -- judged by the same well-formedness / schema / JSON oracle relative to the base, and by patch(a, diff) == b since a nested patch filed under another item can still be well-formed there; these cases are judged by the Python oracle only: the comparison with the Coq checker (T1, traces_validated_against_impl) does not cover them',
+                    'input_distribution': counts, 'generic_config': cfg_cov, 'merge_errors_skipped': merge_errors,
                     'traces_validated_against_impl': t1, 'exhaustive': False})
     chk.sample({'base': gpairs[0][0], 'target': gpairs[0][1]})
     return chk.finish('proof', ASSUME)
 
 def replay(path):
     body = json.load(open(path)); case = body['case']; val = schema()
-    if 'a' in case:
+    if 'config' in case:
+        t = {'op': 'diff_config', 'a': case['a'], 'b': case['b'], 'config': case['config']}
+        res = core.run_impl([t])[0]
+        sig, detail = ('config-diff-raises', None) if 'err' in res else judge_config(val, t, res)
+    elif 'a' in case:
         op = 'nbdiff_patch' if isinstance(case['a'], dict) and 'cells' in case['a'] else 'diff'
         res = core.run_impl([{'op': op, 'a': case['a'], 'b': case['b']}])[0]
         sig, detail = (None, None) if 'err' in res else judge_diff(val, case['a'], res['ok'])
